@@ -146,7 +146,6 @@ func sharedWrites(p *Prog, fn *ssa.Function, cfgField map[*types.Var]*types.Name
 
 func runC15(c *Ctx) {
 	p := c.P
-	entry := serveHTTP(p)
 	cfg := configTypes(p)
 	cfgField := structOfField(p, cfg)
 	var cfgNames []string
@@ -160,7 +159,7 @@ func runC15(c *Ctx) {
 	}
 
 	c.Rule("C15.1", "nothing reachable from ServeHTTP writes the configuration graph or a package variable (outside fresh construction)", 20)
-	reach := p.Reach(entry)
+	reach := p.RequestTimeReach()
 	for _, fn := range SortedFuncs(reach) {
 		if !p.inScope(fn) {
 			continue
